@@ -153,6 +153,42 @@ theorem lrelu_mulmax_id_witness :
     lreluMulMaxId (-5) 0 0 1073741824 0 2143188680 (-1) (-32768) 32767 = -2 ∧
     lreluRef (-5) 0 0 1073741824 0 2143188680 (-1) (-32768) 32767 = -3 := by decide
 
+/-- **monotonicity of `MultiplyByQuantizedMultiplier` in the quantised multiplier** for a non-negative operand: a
+    multiplier `(m1, s1)` below a *normalised* `(m2, s2)` (`2^30 ≤ m2`) — smaller shift, or the same shift and a smaller
+    mantissa — gives a result that is not larger -/
+theorem mbqm_mono (x m1 s1 m2 s2 : Int) (hx : 0 ≤ x) (h10 : 0 ≤ m1) (h11 : m1 < 2147483648) (h2 : 1073741824 ≤ m2)
+    (hle : s1 < s2 ∨ (s1 = s2 ∧ m1 ≤ m2)) : mbqm x m1 s1 ≤ mbqm x m2 s2 := by
+  rcases hle with hlt | ⟨heq, hm⟩
+  · have a := mbqm_shift_step x m1 s1 hx h10 h11
+    have b := mbqm_pow30_mono_shift x hx (s1 + 1) (s2 - (s1 + 1)).toNat
+    have e : s1 + 1 + ((s2 - (s1 + 1)).toNat : Int) = s2 := by omega
+    rw [e] at b
+    have c := mbqm_mono_m x 1073741824 m2 s2 hx (by decide) h2
+    omega
+  · subst heq
+    exact mbqm_mono_m x m1 m2 s1 hx h10 hm
+
+/-- **Quantised, differing scalings — `_partial`: only the non-negative side.** Full statement (false, see
+    `lrelu_mulmax_id_witness`): the same equality for every element. Proved: : for an element at or above the input zero point,
+    `Maximum(Mul(x, alpha), Mul(x, 1))` equals the reference LEAKY_RELU whenever the alpha multiplier is below the normalised
+    identity multiplier (which `alpha < 1` gives). (For elements below the zero point it can be one too large:
+    `lrelu_mulmax_id_witness`.) -/
+theorem lrelu_mulmax_id_eq_partial (v zpIn zpOut idm ids am as lo hi : Int) (hlh : lo ≤ hi) (hx : 0 ≤ v - zpIn)
+    (ha0 : 0 ≤ am) (ha1 : am < 2147483648) (hid : 1073741824 ≤ idm) (hle : as < ids ∨ (as = ids ∧ am ≤ idm)) :
+    lreluMulMaxId v zpIn zpOut idm ids am as lo hi = lreluRef v zpIn zpOut idm ids am as lo hi := by
+  unfold lreluMulMaxId lreluRef mulConst mulElem
+  have e1 : (v + -zpIn) * (1 + -0) = v - zpIn := by omega
+  rw [e1]
+  simp only [ge_iff_le, hx, if_true]
+  have hm := mbqm_mono (v - zpIn) am as idm ids hx ha0 ha1 hid hle
+  have := clamp_mono (mbqm (v - zpIn) am as + zpOut) (mbqm (v - zpIn) idm ids + zpOut) lo hi hlh (by omega)
+  have e2 : zpOut + mbqm (v - zpIn) idm ids = mbqm (v - zpIn) idm ids + zpOut := by omega
+  rw [e2]
+  omega
+
+example : lreluMulMaxId 37 0 0 1073741824 0 2143188680 (-1) (-32768) 32767 = lreluRef 37 0 0 1073741824 0 2143188680 (-1) (-32768) 32767 := by decide
+example : mbqm 1000 1518500250 (-3) ≤ mbqm 1000 1073741824 (-2) ∧ mbqm 1000 1073741824 (-2) ≤ mbqm 1000 1300000000 (-2) := by decide
+
 /-! ### the inverse: `Maximum(x, Mul(x, c))` → LeakyRelu / Abs / Relu (`convert_mul_max_to_abs_or_lrelu`) -/
 
 /-- **`Maximum(x, Mul(x, c))` is the LeakyRelu table** built from `alpha_scaling = (a, m, s)`, `a = q - zp_c ≥ 0`, when the
